@@ -3,6 +3,7 @@ package iscen
 import (
 	"context"
 	"fmt"
+	"os"
 	"strings"
 	"sync"
 	"time"
@@ -44,17 +45,18 @@ type gcfg struct {
 }
 
 var (
-	tiny = kgo.ProducerBatchMaxBytes(512) // one padded record per batch
+	tiny     = kgo.ProducerBatchMaxBytes(512) // one padded record per batch
+	nolinger = kgo.ProducerLinger(0)          // the default is 10ms
 	// MaxProduceRequestsInflightPerBroker is absent on purpose: with idempotence
 	// enabled the option must be 1 (config validation) and switches no path.
 	gcfgs = []gcfg{
-		{"base", []kgo.Opt{tiny}}, // linger 0, a batch per record, no limits
-		{"onebatch", nil},         // linger 0, records waiting together share a batch
+		{"base", []kgo.Opt{nolinger, tiny}}, // a batch per record, no limits
+		{"onebatch", []kgo.Opt{nolinger}},   // records waiting together share a batch
 		{"linger5", []kgo.Opt{kgo.ProducerLinger(5 * time.Millisecond)}},
 		{"linger5-tiny", []kgo.Opt{kgo.ProducerLinger(5 * time.Millisecond), tiny}},
-		{"retries1", []kgo.Opt{tiny, kgo.RecordRetries(1)}},
-		{"timeout5", []kgo.Opt{tiny, kgo.RecordDeliveryTimeout(5 * time.Second)}},
-		{"stoploss", []kgo.Opt{tiny, kgo.StopProducerOnDataLossDetected()}},
+		{"retries1", []kgo.Opt{nolinger, tiny, kgo.RecordRetries(1)}},
+		{"timeout5", []kgo.Opt{nolinger, tiny, kgo.RecordDeliveryTimeout(5 * time.Second)}},
+		{"stoploss", []kgo.Opt{nolinger, tiny, kgo.StopProducerOnDataLossDetected()}},
 	}
 )
 
@@ -157,6 +159,9 @@ func genScenario() *netctl.Scenario {
 				kgo.ProducerBatchCompression(kgo.NoCompression()),
 				kgo.ProduceRequestTimeout(5 * time.Second),
 			}, cfg.opts...)
+			if os.Getenv("C02_KGOLOG") != "" { // debugging aid for single replayed executions
+				opts = append(opts, kgo.WithLogger(kgo.BasicLogger(os.Stderr, kgo.LogLevelDebug, nil)))
+			}
 			st.cl = nscen.NewClient(x, "p", c, opts...)
 			x.FrameHook = st.frameHook
 
